@@ -48,12 +48,12 @@ var qTypes = []string{"S0", "S1", "S2", "S3", "I0", "I1"}
 
 type ctxImpl struct{ context.Context }
 
-func newCtxImpl() *ctxImpl                     { return &ctxImpl{context.Background()} }
-func retCtx() context.Context                  { return context.Background() }
-func retProv() godi.Provider                   { return nil }
-func multiScope() (*S0, godi.Scope)            { v, _ := mk0("B_multiscope", true); return v, nil }
-func outProvCtor() (outProv, error)            { v, err := mk0("B_outprov", true); return outProv{A: v}, err }
-func plainS0ForBad() (*S0, error)              { return mk0("B_plain", true) }
+func newCtxImpl() *ctxImpl          { return &ctxImpl{context.Background()} }
+func retCtx() context.Context       { return context.Background() }
+func retProv() godi.Provider        { return nil }
+func multiScope() (*S0, godi.Scope) { v, _ := mk0("B_multiscope", true); return v, nil }
+func outProvCtor() (outProv, error) { v, err := mk0("B_outprov", true); return outProv{A: v}, err }
+func plainS0ForBad() (*S0, error)   { return mk0("B_plain", true) }
 func outNameGroupCtor() (outNameGroup, error) {
 	v, err := mk3("B_outnamegroup", true)
 	w, _ := mk0("B_outnamegroup0", true)
@@ -67,6 +67,7 @@ type outNameGroup struct {
 	A *S3
 	B *S0 `name:"k" group:"g"`
 }
+
 func lifetimeAdder(c godi.Collection, life string) func(any, ...godi.AddOption) error {
 	switch life {
 	case "singleton":
